@@ -172,4 +172,43 @@ def placesList (p : PlaceId) (i : Nat) : List Ty → List PlaceId
   | t :: ts => places (i :: p) t ++ placesList p (i + 1) ts
 end
 
+/-- the type at a selector path (outermost selector first) below a type -/
+def Ty.at : Ty → List Nat → Option Ty
+  | t, [] => some t
+  | .leaf _ _, _ :: _ => none
+  | .node _ cs, i :: s => match cs[i]? with
+    | some t => t.at s
+    | none => none
+
+/-- place id of the sub-place of `p` addressed by the selector path `s` (outermost first) -/
+def sub (p : PlaceId) (s : List Nat) : PlaceId := s.reverse ++ p
+
+/-- one step of a compilation script on the sub-places of a variable -/
+inductive SOp where
+  | set (s : List Nat) (w : Wire)      -- `dfg[sub-place] = w`
+  | get (s : List Nat)                 -- `dfg[sub-place]`
+  deriving Repr, Inhabited
+
+/-- run a script on the (non-return) variable `r : T`; returns the wires of the reads -/
+def runScript (T : Ty) (r : PlaceId) :
+    List SOp → Locals → Nat → Except Err (List Wire × Locals × Nat × List Op)
+  | [], L, n => .ok ([], L, n, [])
+  | .set s w :: rest, L, n =>
+    match T.at s with
+    | none => .error (.noPort (sub r s))
+    | some t' =>
+      match runScript T r rest (setitem L n (sub r s) false w t').1 (setitem L n (sub r s) false w t').2.1 with
+      | .error e => .error e
+      | .ok (ws, L2, n2, o2) => .ok (ws, L2, n2, (setitem L n (sub r s) false w t').2.2 ++ o2)
+  | .get s :: rest, L, n =>
+    match T.at s with
+    | none => .error (.noPort (sub r s))
+    | some t' =>
+      match getitem L n (sub r s) t' with
+      | .error e => .error e
+      | .ok (w, L1, n1, o1) =>
+        match runScript T r rest L1 n1 with
+        | .error e => .error e
+        | .ok (ws, L2, n2, o2) => .ok (w :: ws, L2, n2, o1 ++ o2)
+
 end GuppyVerif.Wiring
